@@ -73,6 +73,11 @@ def render(s, variant, placement):
         # sibling closure, so resolving it in the wrong namespace gives another value
         t = tup if names else "()"
         body = "def f(%s):\n    return %s" % (plist.replace("dflt(", "dflt(scoped, "), t)
+    elif variant == "defrebind":
+        # every parameter is captured by an inner function AND re-bound by a statement of the function's own body
+        t = tup if names else "()"
+        body = "def f(%s):\n    def inner():\n        return %s\n%s    if probe_branch():\n        return inner()\n    return %s" % (
+            plist, t, "".join("    %s = %s\n" % (n, n) for n in names), t)
     elif variant == "defclassuse":
         # every parameter is read by the body of a class defined in the function, and by nothing else
         t = tup if names else "()"
@@ -236,7 +241,7 @@ def run_shard(shard):
 def main(tier, seed, collect=None):
     t0 = time.time()
     k = 96
-    variants = ["def", "defann", "lambda", "defclosure", "defscope", "defclassuse"]
+    variants = ["def", "defann", "lambda", "defclosure", "defscope", "defclassuse", "defrebind"]
     placements = ["module", "function", "class"]
     cfgs = core.ALL_CFG
     total = core.run_shards(run_shard, [(r, k, cfgs, variants, placements) for r in range(k)], seed=seed, pid=PID)
